@@ -247,8 +247,8 @@ def run(rep):
     from ..formula import show as _show
 
     class Scen:
-        def __init__(self, X, compress, archive, written=None, stem=("$S",)):
-            self.X, self.compress, self.archive, self.written, self.stem = X, compress, archive, written, stem
+        def __init__(self, X, compress, archive, written=None, stem=("$S",), also=()):
+            self.X, self.compress, self.archive, self.written, self.stem, self.also = X, compress, archive, written, stem, tuple(also)
             self.pe = PathEval({"filename": ("path", SPath(("$P",), tuple(stem) + ("$X",)))}, X)
 
     def xev(e, sc):
@@ -431,7 +431,8 @@ def run(rep):
                 return None
             if p_[0] != "path":
                 return None
-            return norm_tokens(sc.pe.subst(p_[1].full())) == sc.written
+            here = norm_tokens(sc.pe.subst(p_[1].full()))
+            return here == sc.written or here in sc.also
         return None
 
     def consistent(path, sc):
@@ -533,6 +534,13 @@ def run(rep):
                               f"({raised} consistent path(s) raise)", line=cn.lineno)
                 continue
             rep.proved("R09.a", rel, "_check_name", f"{label}: written file is found", show(zp), line=cn.lineno)
+            if X == "":
+                # a plain file left by an earlier, uncompressed write of the same name must not shadow the archive just written
+                stale = norm_tokens(sc.pe.subst(("$P", "/") + tuple(stem) + (".csv",)))
+                sc3 = Scen(X, True, False, written=zp, stem=stem, also=(stale,))
+                rd3, _r3 = read_by(sc3)
+                rep.check(any(x[0] == zp for x in rd3), "R09.a", rel, "_check_name", f"{label}: the archive is found before a stale plain file of the same stem",
+                          f"with {show(stale)} present the reader opens {[show(x[0]) if x[0] else 'a plain file' for x in rd3] or 'a plain file'} instead of {show(zp)}", line=cn.lineno)
             members_r = {x[1] for x in found}
             rep.check(members_r == {member_w}, "R09.a", rel, "read_csv", f"{label}: zip member read == member written",
                       f"written `{show(member_w)}`, read {[show(m_) for m_ in members_r]}", line=r.lineno)
@@ -856,6 +864,25 @@ def run(rep):
                   det_o, line=w.lineno)
     rep.check(okmem and nmem >= 1, "R09.c", rel, "write_csv", "zip / archive: stored text = header lines joined by newlines + newline + table text",
               det_m, line=w.lineno)
+    # reader: the table is parsed with the caller's options only (a `comment="#"` or similar added on the way truncates text cells)
+    rdp = pq.PEval(ignore_calls=("warnings.warn",))
+    rdp.unroll_const = True
+    rdp.maxpaths = 4000
+    rdp.inline = helpers
+    added = []
+    for p_ in rdp.run(r):
+        for e in p_.effects:
+            if e.kind == 'store' and e.target == 'kwargs':
+                added.append(f"kwargs[{_show(e.key)[:30]}] = {_show(e.val)[:30]} (line {e.line})")
+            if e.kind == 'call' and e.val is not None and e.val[0] == 'call' and e.val[1] in ('.setdefault', '.update', '.__setitem__') and e.val[2] and e.val[2][0] == ('sym', 'kwargs'):
+                added.append(f"kwargs{e.val[1]}({', '.join(_show(a)[:20] for a in e.val[2][1:])}) (line {e.line})")
+        pool = [v for v in p_.env.values() if isinstance(v, tuple)] + ([p_.value] if isinstance(p_.value, tuple) else [])
+        for x in pq.find(('tuple', tuple(pool)), lambda y: pq.call_named(y, ".read_csv") and len(y[2]) >= 1 and y[2][0] == ('sym', 'pd')):
+            for kw_ in ("comment", "skiprows", "nrows", "usecols", "skipfooter"):
+                if pq.kw_of(x, kw_) is not None:
+                    added.append(f"pd.read_csv(.., {kw_}={_show(pq.kw_of(x, kw_))[:20]})")
+    rep.check(not added, "R09.c", rel, "read_csv", "the table is parsed with the caller's options only (nothing is added to kwargs, no row / comment filtering keyword)",
+              "; ".join(sorted(set(added))[:3]), line=r.lineno)
     return EXPLANATION
 
 
